@@ -365,8 +365,8 @@ func (c CollectionPage) Equals(with Item) bool {
 	}
 	result := true
 	err := OnCollectionPage(with, func(w *CollectionPage) error {
-		OnCollection(w, func(wo *Collection) error {
-			if !wo.Equals(c) {
+		OnCollection(c, func(co *Collection) error {
+			if !co.Equals(w) {
 				result = false
 				return nil
 			}
